@@ -17,6 +17,12 @@ import (
 
 func init() {
 	register(&Check{ID: "C01", Run: runC01, Shards: 16, MinOutcomes: 2})
+	Replayers["c01multi"] = func(raw json.RawMessage) (string, bool) {
+		var c c01MultiCase
+		json.Unmarshal(raw, &c)
+		key, msg := c01Multi(c)
+		return fmt.Sprintf("%+v: %s %s", c, key, msg), key != ""
+	}
 	Replayers["c01"] = func(raw json.RawMessage) (string, bool) {
 		var c c01Case
 		json.Unmarshal(raw, &c)
@@ -39,7 +45,46 @@ type c01Case struct {
 	// the same options value, differing only in the password; the library
 	// documents that it does not modify the options
 	Reuse bool `json:"reuse,omitempty"`
+	// Secret selects the byte content of password and KG (0: counting pattern);
+	// UName that of the user name. The BMC knows exactly these values.
+	Secret int `json:"secret,omitempty"`
+	UName  int `json:"uname,omitempty"`
 }
+
+// c01Content returns n bytes of the given content kind.
+func c01Content(n int, base byte, kind int) []byte {
+	b := pattern(n, base, 1)
+	if n == 0 {
+		return b
+	}
+	switch kind {
+	case 1: // leading zero byte
+		b[0] = 0
+	case 2: // zero byte in the middle
+		b[n/2] = 0
+	case 3: // all zero
+		for i := range b {
+			b[i] = 0
+		}
+	case 4: // top bit set everywhere
+		for i := range b {
+			b[i] = 0x80 + byte(i*7)
+		}
+	case 5: // white space at both ends
+		b[0], b[n-1] = ' ', '\n'
+	case 6: // trailing zero byte before a non-zero one is impossible; zero then non-zero at the end
+		if n >= 2 {
+			b[n-2] = 0
+		}
+	case 7: // all 0xFF
+		for i := range b {
+			b[i] = 0xFF
+		}
+	}
+	return b
+}
+
+const c01Contents = 8
 
 var c01SIDs = []uint32{1, 0x11223344, 0xFFFFFFFF, 0x00000100}
 
@@ -67,12 +112,14 @@ func isNoneSuite(s ref.Suite) bool { return s.Integ == 0 || s.Conf == 0 }
 // c01One runs one configuration; returns a violation key and message ("" = ok).
 func c01One(c c01Case, r *rep.R) (string, string) {
 	cfg := defaultConfig()
-	cfg.Password = pattern(c.PLen, 0x61, 1)
+	cfg.Password = c01Content(c.PLen, 0x61, c.Secret)
 	var kg []byte
 	if c.KG {
-		kg = pattern(20, 0xD0, 1)
+		kg = c01Content(20, 0xD0, c.Secret)
 		cfg.KG = kg
 	}
+	cfg.Username = c01Content(c.ULen, 0x41, c.UName)
+	cfg.CheckUser = true
 	cfg.RC = c01Pattern(c.BMCPat, 0x11)
 	cfg.GUID = c01Pattern(c.BMCPat, 0x77)
 	cfg.SIDC = c01SIDs[c.SIDSel]
@@ -86,7 +133,7 @@ func c01One(c c01Case, r *rep.R) (string, string) {
 	w := newWorld(cfg, nil, nil)
 	opts := &bmc.V2SessionOpts{
 		SessionOpts: bmc.SessionOpts{
-			Username:          string(pattern(c.ULen, 0x41, 1)),
+			Username:          string(cfg.Username),
 			Password:          cfg.Password,
 			MaxPrivilegeLevel: ipmi.PrivilegeLevel(c.Priv),
 		},
@@ -189,6 +236,127 @@ func c01One(c c01Case, r *rep.R) (string, string) {
 	return "", ""
 }
 
+// c01MultiCase: several sessions on one connection.
+type c01MultiCase struct {
+	Suites []ref.Suite `json:"suites"`
+	// Mode 0: each session is closed before the next is opened; 1: all are
+	// opened first, used alternately, then closed in opening order; 2: as 1 but
+	// closed in reverse order with commands on the survivors in between
+	Mode int  `json:"mode"`
+	KG   bool `json:"kg"`
+}
+
+func c01Multi(c c01MultiCase) (string, string) {
+	cfg := defaultConfig()
+	cfg.DistinctSIDs = true
+	cfg.Password = pattern(9, 0x61, 1)
+	var kg []byte
+	if c.KG {
+		kg = pattern(20, 0xD0, 1)
+		cfg.KG = kg
+	}
+	w := newWorld(cfg, nil, nil)
+	type st struct {
+		s   *bmc.V2Session
+		sid uint32
+	}
+	var open []*st
+	var key, msg string
+	fail := func(k, m string, a ...any) {
+		if key == "" {
+			key, msg = k, fmt.Sprintf("sessions %v mode %d: ", c.Suites, c.Mode)+fmt.Sprintf(m, a...)
+		}
+	}
+	next := cfg.SIDC
+	openOne := func(i int) *st {
+		opts := &bmc.V2SessionOpts{SessionOpts: bmc.SessionOpts{Username: "multi", Password: cfg.Password, MaxPrivilegeLevel: ipmi.PrivilegeLevelAdministrator}, KG: kg, CipherSuites: []ipmi.CipherSuite{suiteOf(c.Suites[i])}}
+		s, err := w.Conn.NewV2Session(w.Ctx, opts)
+		sid := next
+		next++
+		if err != nil {
+			fail("C01/multi/handshake-failed", "opening session %d (suite %v) on a connection that has opened %d before failed against a conforming BMC: %v; BMC saw: %v", i+1, c.Suites[i], i, err, problemsOf(w.BMC))
+			return nil
+		}
+		bs := w.BMC.Sessions[sid]
+		if bs == nil || !bs.Active {
+			fail("C01/multi/session-without-bmc-session", "session %d returned but the BMC has no active session %#x", i+1, sid)
+			return nil
+		}
+		if !bytes.Equal(s.SIK, bs.SIK) || !bytes.Equal(s.K(1), bs.K1) || !bytes.Equal(s.K(2), bs.K2) {
+			fail("C01/multi/key-mismatch", "session %d: keys differ from the BMC's", i+1)
+		}
+		if s.RemoteID != sid || s.LocalID != bs.HS.SIDM {
+			fail("C01/multi/session-ids", "session %d: IDs local %#x remote %#x, BMC has console %#x bmc %#x", i+1, s.LocalID, s.RemoteID, bs.HS.SIDM, sid)
+		}
+		return &st{s, sid}
+	}
+	use := func(x *st, n int) {
+		if x == nil {
+			return
+		}
+		dev, err := x.s.GetDeviceID(w.Ctx)
+		if err != nil || dev.ID != cfg.DeviceID[0] {
+			fail("C01/multi/command-failed", "Get Device ID on session %#x (use %d): %v %+v", x.sid, n, err, dev)
+		}
+		chs, err := x.s.GetChassisStatus(w.Ctx)
+		if err != nil || chs.PoweredOn != (cfg.Chassis[0]&1 != 0) {
+			fail("C01/multi/command-failed", "Get Chassis Status on session %#x (use %d): %v %+v", x.sid, n, err, chs)
+		}
+	}
+	closeOne := func(x *st) {
+		if x == nil {
+			return
+		}
+		if err := x.s.Close(w.Ctx); err != nil {
+			fail("C01/multi/close", "closing session %#x: %v", x.sid, err)
+		} else if !w.BMC.Sessions[x.sid].Closed {
+			fail("C01/multi/close", "Close returned nil but the BMC did not see a valid Close Session for %#x", x.sid)
+		}
+	}
+	p := guard(func() {
+		switch c.Mode {
+		case 0:
+			for i := range c.Suites {
+				x := openOne(i)
+				use(x, 0)
+				closeOne(x)
+			}
+		default:
+			for i := range c.Suites {
+				open = append(open, openOne(i))
+				use(open[i], 0)
+			}
+			for n := 1; n <= 2; n++ {
+				for _, x := range open {
+					use(x, n)
+				}
+			}
+			if c.Mode == 1 {
+				for _, x := range open {
+					closeOne(x)
+				}
+			} else {
+				for i := len(open) - 1; i >= 0; i-- {
+					closeOne(open[i])
+					for _, x := range open[:i] {
+						use(x, 3)
+					}
+				}
+			}
+		}
+	})
+	if p != "" {
+		return "C01/multi/panic/" + siteKey(p), "panic: " + p
+	}
+	if key != "" {
+		return key, msg
+	}
+	if probs := problemsOf(w.BMC); len(probs) > 0 {
+		return "C01/multi/bmc-rejects-datagram", fmt.Sprintf("sessions %v mode %d: BMC found non-conforming datagrams: %s", c.Suites, c.Mode, strings.Join(probs, "; "))
+	}
+	return "", ""
+}
+
 func runC01(r *rep.R) {
 	r.SetRule("a case is one (suite, discovery mode, username length, password length, KG, privilege, lookup mode, BMC random/GUID pattern, BMC session ID) configuration; the real NewV2Session + GetDeviceID + GetChassisStatus + Close run against the independent reference BMC with default (conforming) answers; all cases are non-trivial (each runs a full handshake) and distinct by construction")
 	var suites []ref.Suite
@@ -285,6 +453,53 @@ func runC01(r *rep.R) {
 			}
 		}
 	}
+	// byte contents of the secrets and of the user name: zero bytes at the
+	// start, in the middle and near the end, all zero, all ones, top bits set,
+	// white space at the ends
+	for _, s := range suites {
+		for secret := 0; secret < c01Contents; secret++ {
+			for uname := 0; uname < c01Contents; uname++ {
+				if uname == 1 || uname == 2 || uname == 3 || uname == 6 {
+					continue // user names are text: no NUL bytes
+				}
+				if !full && secret != 0 && uname != 0 && secret != uname {
+					continue
+				}
+				for _, kg := range []bool{false, true} {
+					for _, l := range [][2]int{{16, 20}, {5, 8}, {1, 1}, {2, 3}} {
+						do(c01Case{Suite: s, ULen: l[0], PLen: l[1], KG: kg, Priv: 4, Lookup: secret%2 == 0, BMCPat: 2, SIDSel: 1, Secret: secret, UName: uname})
+					}
+				}
+			}
+		}
+	}
+	// several sessions on one connection: every ordered pair of suites, closed
+	// before re-opening or held open together; triples on a diagonal
+	doMulti := func(c c01MultiCase) {
+		idx++
+		if !r.Mine(idx) {
+			return
+		}
+		key, msg := c01Multi(c)
+		r.Eval(rep.H(fmt.Sprintf("multi %+v", c)), true)
+		r.Trace()
+		if key != "" {
+			r.Violate(key, msg, "c01multi", c, func() bool { k, _ := c01Multi(c); return k == key })
+			r.Outcome("violation:" + key)
+		} else {
+			r.Outcome("std:several-sessions-on-one-connection-work")
+		}
+	}
+	for mode := 0; mode < 3; mode++ {
+		for i, s1 := range suites {
+			for j, s2 := range suites {
+				doMulti(c01MultiCase{Suites: []ref.Suite{s1, s2}, Mode: mode, KG: (i+j)%2 == 1})
+				if full || i == j || (i+1)%len(suites) == j {
+					doMulti(c01MultiCase{Suites: []ref.Suite{s1, s2, suites[(i+j+1)%len(suites)]}, Mode: mode, KG: (i+j)%2 == 0})
+				}
+			}
+		}
+	}
 	// the same options value used for two BMCs with different passwords
 	for _, s := range suites {
 		for _, kg := range []bool{false, true} {
@@ -311,7 +526,7 @@ func runC01(r *rep.R) {
 	} else {
 		r.Bound("product", "each axis complete against boundary sets of the others (quick)")
 	}
-	r.Assume("username/password/KG byte values follow a fixed pattern; HMAC treats key bytes uniformly and the code branches only on lengths")
+	r.Assume("username/password/KG byte values: a counting pattern on the length axes; eight content kinds (zero bytes at the start / middle / near the end, all zero, all ones, top bits set, white space at the ends) at four length pairs")
 	r.Assume("for suites with integrity None the library's authenticated/encrypted flags are not judged (specification silent); refusal with an error is equally accepted for None suites")
 	r.Assume("BMC randoms/GUID over 4 patterns and session IDs over {1 (= console's), 0x11223344, 0xFFFFFFFF, 0x100}")
 }
